@@ -88,6 +88,17 @@ class Full(Engine):
                 return self.call_function(fn, args, kwargs, pc)
             if fn.__name__ == "replace" and mod == "dataclasses":
                 return self.dc_replace(args, kwargs, pc)
+        if isinstance(fn, types.BuiltinMethodType) and fn.__name__ == "index" and isinstance(fn.__self__, (list, tuple)) \
+                and len(args) == 1 and self.is_sym(args[0]):
+            seq = fn.__self__
+            hits = [self._lb(self.equal(x, args[0], pc)) for x in seq]
+            anyhit = z3.simplify(z3.Or(*hits)) if hits else FALSE
+            if self.pybool(anyhit) is not True:
+                self.raises.append((z3.And(pc, z3.Not(anyhit)), ValueError))
+            res = len(seq) - 1
+            for i in range(len(seq) - 2, -1, -1):
+                res = self.ite(hits[i], i, res)
+            return res
         b = self.builtin(fn, args, kwargs, pc)
         if b is not NotImplemented:
             return b
@@ -324,7 +335,17 @@ class Full(Engine):
         if fn is round and anysym:
             v = args[0]
             if len(args) > 1:
-                raise Unsupported("round with ndigits on symbolic")
+                nd = args[1]
+                if self.is_sym(nd) or isinstance(v, z3.FPRef) or not self.is_float_term(v):
+                    raise Unsupported("round with ndigits on symbolic")
+                # over the reals: round-half-even of x*10^n, divided by 10^n
+                sc = z3.RealVal(10 ** nd) if nd >= 0 else z3.RealVal(1) / (10 ** (-nd))
+                y = v * sc
+                fl = z3.ToInt(y)
+                fr_ = y - z3.ToReal(fl)
+                half = z3.RealVal("1/2")
+                i = z3.If(fr_ < half, fl, z3.If(fr_ > half, fl + 1, z3.If(fl % 2 == 0, fl, fl + 1)))
+                return z3.ToReal(i) / sc
             if isinstance(v, z3.FPRef):
                 i = z3.ToInt(z3.fpToReal(z3.fpRoundToIntegral(z3.RNE(), v)))
                 return z3.Int2BV(i, self.W) if self.mode == "bv" else i
